@@ -69,6 +69,22 @@ _ev = Stream('evparent', 'h_lookup', mode='modellookup', gen=lambda rng, tier: (
              nontrivial=lambda case, out: ' r' in case and ',' in out, spec_mode='speclookup')
 _ev.valid_case = _valid_evparent
 
+def _gen_lookup_filtered(rng, tier):
+    """the same lookups asked by layers BEHIND per-layer filters: `lookup_current` / `event_scope` show the most recently entered,
+    not yet exited span the layer's own filter lets it see (stacks, histories, validity and nontriviality are C07's)"""
+    import importlib
+    c07 = importlib.import_module('checks.C07')
+    n = 300 if tier == 'quick' else 8000
+    k = 0
+    for c in c07.gen_lookup(rng, 'thorough'):
+        if k >= n: break
+        if c07._valid_lookup(c): k += 1; yield c
+def _nt_lookup(case, out):
+    import importlib
+    return importlib.import_module('checks.C07').nontrivial_lookup(case, out)
+_lf = Stream('lookupfiltered', 'h_lookup', mode='modellookup', gen=_gen_lookup_filtered, nontrivial=_nt_lookup, spec_mode='speclookup')
+_lf.valid_case = lambda case: __import__('importlib').import_module('checks.C07')._valid_lookup(case)
+
 def extra(tier, seed, rng, res, broken):
     """several threads take references on ONE span at the same moment (what entering it, creating children of it and cloning
     it do): with a handle still held the span stays open and readable"""
@@ -102,6 +118,7 @@ PROPERTY = {
         Stream('hist', 'h_registry', gen=gen, nontrivial=nontrivial, spec_mode='spec'),
         Stream('reentry', 'h_registry', gen=gen_reentry, nontrivial=nontrivial),
         _ev,
+        _lf,
     ],
     'rule': 'one case = one history on 1-3 threads over a forest of <=14 spans with guard-style enter/exit, out-of-order exits biased to entries two or more below the top, contextual/root/explicit children, '
             'events (event_span, lookup_current, event_scope and its from_root reverse), Span::current, scope walks; stream reentry adds same-thread re-entry (compared with the model only: the property excludes it '
